@@ -17,7 +17,7 @@ BUDGET = {"quick": 50, "thorough": 600}
 QUICK_CASES = 1000  # generator items in the quick tier (fixed amount of work; BUDGET is then only a safety cap)
 FLOOR = {"quick": 20000, "thorough": 20000}
 TIMEOUT = 120
-REQUIRED_OBS = ["frame_lists", "fragmentations", "exhaustive_fragmentations", "sessions", "requests_sent", "replies_verified", "iopub_brackets_verified", "results_checked", "errors_checked", "stdout_checked", "corrupted_requests", "corruptions_rejected"]
+REQUIRED_OBS = ["frame_lists", "fragmentations", "exhaustive_fragmentations", "sessions", "requests_sent", "replies_verified", "iopub_brackets_verified", "results_checked", "errors_checked", "stdout_checked", "corrupted_requests", "corruptions_rejected", "second_subscriber_sessions"]
 RULE = (
     "(A) ZmqSocket over in-memory streams: lists of 1-8 byte frames with lengths in {0, 1, 254, 255, 256, 257, 65535, 65536} and random, "
     "random contents, optionally with command frames in between, written by send / send_multipart and re-read by recv / recv_multipart "
@@ -61,11 +61,16 @@ class Writer:
     def __init__(self):
         self.buf = bytearray()
         self.closed = False
+        self.gone = False
 
     def write(self, data):
-        self.buf += data
+        if not self.gone:
+            self.buf += data
 
     async def drain(self):
+        # like asyncio's StreamWriter once the peer is gone
+        if self.gone or self.closed:
+            raise ConnectionResetError("Connection lost")
         return None
 
     def close(self):
@@ -368,11 +373,25 @@ def run_proto(case):
         await cl.connect("shell", cbs["shell"])
         await cl.connect("heartbeat", cbs["heartbeat"])
         await w.settle()
+        # a second front end that attaches to iopub and leaves again in the middle of the session
+        cl2 = None
+        leave_at = None
+        if not corrupt and rng.random() < 0.4:
+            cl2 = Client(KEY)
+            await cl2.connect("iopub", cbs["iopub"])
+            await w.settle()
+            leave_at = rng.randint(1, 3)
+            obs["second_subscriber_sessions"] += 1
         sent = []
         exec_count = 1
         has_x = False
         nreq = rng.randint(3, 9)
         for qi in range(nreq):
+            if cl2 is not None and qi == leave_at:
+                ch = cl2.chan["iopub"]
+                ch["writer"].gone = True
+                ch["reader"].feed_eof()
+                await w.settle()
             ids = [bytes(rng.getrandbits(8) for _ in range(rng.randint(1, 6))) for _ in range(rng.randint(0, 2))]
             k = rng.random()
             if k < 0.6:
